@@ -370,7 +370,21 @@ def _run_task(arg):
             for b in st.buckets.values():
                 b['shard'] = [shard_seed, n]
         else:
-            check.run_chunk(task[1], st)
+            try:
+                check.run_chunk(task[1], st)
+            except Exception as e:
+                # an exception escaping from inside the library while an
+                # enumeration runs is a finding, not a harness error
+                where = sut.innermost_pydiffx_frame(e)
+
+                if where == ('?', '?'):
+                    raise
+
+                st.violation('stray-exception:%s@%s:%s'
+                             % (type(e).__name__, where[0], where[1]),
+                             '%s: %s (chunk %r)' % (type(e).__name__, e,
+                                                    task[1]),
+                             {'chunk': task[1]})
     except BaseException:
         return name, None, traceback.format_exc(), time.time() - t0
 
